@@ -280,3 +280,7 @@ for _p in ("C10", "C19", "C11"):
                                       "signature and uses nothing else of the raw call (R10.BYNAME, 11 sites).")
 PROPERTIES["C11"]["filter"]["R3.PER"] = lambda o: o.key.startswith(("PER4", "PER3:solve:compute_ccv", "PER3:simulate:compute_ccv")) or "u_and_f" in o.key or "space_info" in o.key
 PROPERTIES["C11"]["explanation"] += " The continuation-value function used in period t is the one built for period t (PER3 compute_ccv)."
+
+for _p in ("C17", "C01", "C08", "C12"):
+    PROPERTIES[_p]["rules"] += [sig.user_dags_called_through_dispatchers]
+PROPERTIES["C17"]["explanation"] += " Functions assembled from the model functions are evaluated point by point through a dispatcher, never on whole grids (R10.SCALAR)."
